@@ -279,10 +279,10 @@ func (l *lexer) skipTo(s string) bool {
 	return false
 }
 
-// updateCursor moves the cursor forward n bytes.  updateCursor does not
-// correctly handle tabs.  This is okay as it is only used by skipTo, and skipTo
-// is never used to skip to an initial " (which is the only time that tcol is
-// necessary, as per YANG's multi-line quoted string requirement).
+// updateCursor moves the cursor forward n bytes.  tcol is kept up to date as
+// the skipped text (a comment or a single quoted string) may be followed on the
+// same line by an initial ", whose column is needed as per YANG's multi-line
+// quoted string requirement.
 func (l *lexer) updateCursor(n int) {
 	s := l.input[l.pos : l.pos+n]
 	l.pos += n
@@ -293,8 +293,16 @@ func (l *lexer) updateCursor(n int) {
 	if c := strings.Count(s, "\n"); c > 0 {
 		l.line += c
 		l.col = 0
+		l.tcol = 0
 	}
-	l.col += utf8.RuneCountInString(s[strings.LastIndex(s, "\n")+1:])
+	for _, c := range s[strings.LastIndex(s, "\n")+1:] {
+		l.col++
+		if c == '\t' {
+			l.tcol = (l.tcol + 8) & ^7
+		} else {
+			l.tcol++
+		}
+	}
 }
 
 // Errorf writes an error on l.errout and increments the error count.
